@@ -37,6 +37,15 @@ CHECKS = {
  "C16": ("model_checking", "E1", "exhaustive enumeration (stateright grid) of suffix × name shape × -E mapping × content × mode against a reference suffix lookup and the kit's constructed blocks",
          "39 registered suffixes × 11 file-name shapes (x.S, x.y.S, hidden via diff, dotted directories, names with spaces, upper-cased, .bak, no dot, ~, doubled suffix, suffix as directory) × 4 `-E` mappings × {native probe, unbalanced probe, garbage} × {scan, diff, diff+glob}; mapped names must yield exactly the constructed blocks, unmapped names nothing and no error; CLI slice for -E parsing/validation (rejected before any file is read)",
          "reference lookup written from the property text; the registered-suffix table is cross-checked with the implementation's", "§2 C16"),
+ "C17": ("model_checking", "E1", "explicit-state reachability search inside the Lua interpreter (BFS over the object graph from the script's environment), run through the real CLI for every mode value",
+         "for 9 values of BLOCKWATCH_LUA_MODE a probe script enumerates every table/function/userdata reachable from _G, _ENV and the string metatable through fields, keys and metatables (≈130 values, ≈270 edges per mode) and returns all reachable function paths; default class: the set must equal the allow-list (base minus dofile/loadfile/require + coroutine/table/string/utf8/math) with none of io/os/package/debug/require/dofile/loadfile; safe adds io/os/package/require but no debug and no working native loader; unsafe adds debug and native loading; 19 concrete escape attempts per default-class value with a canary file",
+         "Lua has no ambient authority beyond reachable values; upvalues of C library functions are unreachable without debug; behaviour of package.loadlib is probed by calling it", "§2 C17"),
+ "C18": ("model_checking", "E1+E2", "explicit-state search over block sets × stateless choice-prefix DFS over every schedule of the scheduling seams (JoinSet delivery order, thread-body order) and every block-map order; real code re-executed per schedule",
+         "every set of ≤3 (thorough ≤4) scripted blocks over 8 script behaviours × 2 files; for each, all delivery orders of the check-lua JoinSet × thread-body orders × map orders (55k executions quick); scripts log every call, so exactly-once, file, line, attributes and content are compared; any failing script must fail the run in every schedule; plus content × pattern × attribute cases, 8/16/40 blocks under 3 delivery orders (capped) and a labelled free-running CLI supplement",
+         "tokio JoinSet contract trusted; intra-body interleavings not explored (bodies share only an immutable Arc)", "§2 C18"),
+ "C19": ("fault_enumeration", "E1+E2", "exhaustive enumeration of reply/fault assignments to block sets × all delivery orders (choice-prefix DFS over the seams) against a recording fake endpoint keyed by request content",
+         "every set of ≤2 (thorough ≤3) AI blocks over 10 replies and 11 endpoint faults × 2 files × all delivery orders; exactly one faithful request per block (path, bearer key, model, verbatim user message), OK-class ⇒ no diagnostic, other reply ⇒ one diagnostic quoting it on the start tag, any fault ⇒ run fails in every order; verbatim transport of 8 conditions × 7 contents × 4 patterns (quotes, backslashes, newlines, control characters, Unicode); whole-run faults: no key, empty key, connection refused",
+         "async-openai/reqwest trusted for wire encoding; 5xx/429 (retried by the library) are outside the property's fault set", "§2 C19"),
  "C09": ("model_checking", "E1", "explicit-state search (stateright) over content-line sequences × layouts, each state carrying the full (operator, spacing, N) grid",
          "every sequence of ≤5 (thorough ≤7) content lines over {statement, blank, whitespace-only, indented, comment, nested start/end tag} in every layout (tag on own line, content on the tag's line, both tags in one comment, adjacent comments) × 5 operators × 3 spacings × N 0..7; presence and data.actual/op/expected of the diagnostic compared with the reference count",
          "bounded scope; large N and large blocks only through the grid", "§2 C06–C09"),
